@@ -108,11 +108,19 @@ def check_proc_macro(rec, case):
     text, fn, pre, cmd, rest = case["text"], case["fn"], case["pre"], case["cmd"], case["rest"]
     nt = any(ch in rest for ch in "([,'\"")
     rec.case(case, nt, labels=("kind:proc-macro", f"form:{text[:2]}"), key=text)
-    o = outcome(text + "\n", "exec")
+    follow = case.get("follow", "")
+    o = outcome(text + "\n" + follow, "exec")
     if o.kind != "tree":
         cn = o.canon()
-        rec.fail(dict(case, src=text), f"proc-macro-rejected:{cn[0]}:{o.etype}", {"outcome": [str(x)[:200] for x in cn], "src": text})
+        rec.fail(dict(case, src=text + "\n" + follow), f"proc-macro-rejected:{cn[0]}:{o.etype}", {"outcome": [str(x)[:200] for x in cn], "src": text + "\n" + follow})
         return
+    if follow:  # code after the macro is parsed as usual
+        ref = cpy(follow)
+        if ref.kind == "tree":
+            after = o.tree.body[1:]
+            if len(after) != len(ref.tree.body) or any(astdiff(e, g, positions=False) is not None for e, g in zip(ref.tree.body, after)):
+                rec.fail(dict(case, src=text + "\n" + follow), "proc-macro-following-code-differs", {"src": text + "\n" + follow})
+                return
     calls = find_calls(o.tree, fn)
     if len(calls) != 1:
         rec.fail(dict(case, src=text), "proc-macro-call-count", {"found": len(calls), "src": text})
